@@ -103,15 +103,22 @@ _CLASS_CACHE = {}
 
 
 def build_class(prog):
-    key = repr(sorted(prog['fns'].items())) + prog['kind'] + prog.get('via', '')
+    key = repr(sorted(prog['fns'].items())) + prog['kind'] + prog.get('via', '') + ('!mo' if prog.get('missing_output') else '')
     if key in _CLASS_CACHE:
         return _CLASS_CACHE[key]
     ns = {}
     if prog['kind'] == 'proc':
         for i, (aw, oc) in prog['fns'].items():
-            ns[f'f{i}'] = _make_body(i, aw, oc)
+            # with a required output that is never emitted, a step that returns normally still ends FINISHED, unsuccessfully
+            py_oc = ('stop', oc[1], True) if (prog.get('missing_output') and oc[0] == 'stop') else oc
+            ns[f'f{i}'] = _make_body(i, aw, py_oc)
         ns['run'] = ns['f0']
-        cls = type('GenProc', (plumpy.Process,), ns)
+        if prog.get('missing_output'):
+            def define(cls, spec):
+                super(klass, cls).define(spec)
+                spec.output('required_but_never_emitted', required=True)
+            ns['define'] = classmethod(define)
+        klass = cls = type('GenProc', (plumpy.Process,), ns)
     else:
         n = len(prog['fns'])
         via_call = prog.get('via') == 'call'
@@ -176,6 +183,8 @@ CORPUS = collections.OrderedDict([
     ('WaitWait', {'kind': 'proc', 'nfut': 0, 'fns': {0: (0, ('wait', 1)), 1: (1, ('wait', 2)), 2: (0, ('stop', None, True))}}),
     ('Chain2', chain_prog([[(0, 0), (1, 1)], [(2, 0)], []], 3)),
     ('ChainCall', dict(chain_prog([[(0, 0)], [(1, 0), (2, 1)], []], 3), via='call')),
+    ('MissingOut', {'kind': 'proc', 'nfut': 0, 'missing_output': True,
+                    'fns': {0: (1, ('cont', 1, [], {})), 1: (1, ('stop', 4, False))}}),
     ('RetAwaitable', {'kind': 'proc', 'nfut': 0, 'fns': {0: (0, ('cont', 1, [], {})), 1: (0, ('stop', 'AW', True))}}),
     ('FailSync', {'kind': 'proc', 'nfut': 0, 'fns': {0: (0, ('cont', 1, [], {})), 1: (0, ('raise', 1))}}),
 ])
@@ -658,7 +667,8 @@ def fix_case(case):
         else:
             oc = tuple(oc)
         fns[int(k)] = (aw, oc)
-    prog = dict(kind=prog['kind'], nfut=prog.get('nfut', 0), fns=fns, **({'via': prog['via']} if prog.get('via') else {}))
+    prog = dict(kind=prog['kind'], nfut=prog.get('nfut', 0), fns=fns, **({'via': prog['via']} if prog.get('via') else {}),
+                **({'missing_output': True} if prog.get('missing_output') else {}))
     sched = collections.OrderedDict((int(k), v) for k, v in sorted(case['schedule'].items(), key=lambda kv: int(kv[0])))
     return prog, sched
 
